@@ -259,7 +259,26 @@ def real_check(oplist, cfg):
     d = describe_program(prog, ops)
     d["errors"] = [m for m, _ in msgs.errors]
     d["warnings"] = [m for m, _ in msgs.warnings]
+    d["error_locs"] = [loc_kind(l, ops) for _, l in msgs.errors]
+    d["warning_locs"] = [loc_kind(l, ops) for _, l in msgs.warnings]
     return d
+
+
+def loc_kind(loc, ops):
+    """What a diagnostic is attached to: ["tok", i] = the i-th operand token of its operation,
+    ["op"] = the operation (its name), ["none"]."""
+    from hera.data import Location, Token
+    if loc is None:
+        return ["none"]
+    if isinstance(loc, Token):
+        for o in ops:
+            for j, t in enumerate(o.tokens):
+                if t is loc:
+                    return ["tok", j]
+        return ["tok", -1]
+    if isinstance(loc, Location):
+        return ["op"]
+    return ["other", type(loc).__name__]
 
 
 def ops_term(oplist):
@@ -301,5 +320,8 @@ def decode_check(l):
             loc = ("tok", r.int())
         return (is_err, fmt.format(*args), loc)
     msgs = r.list(msg)
+    def lk(l):
+        return ["op"] if l == 0 else ["none"] if l == 2 else ["tok", l[1]]
     return {"data": data, "code": code, "symtab": st,
-            "errors": [m for e, m, _ in msgs if e], "warnings": [m for e, m, _ in msgs if not e]}
+            "errors": [m for e, m, _ in msgs if e], "warnings": [m for e, m, _ in msgs if not e],
+            "error_locs": [lk(l) for e, _, l in msgs if e], "warning_locs": [lk(l) for e, _, l in msgs if not e]}
